@@ -1,6 +1,6 @@
 """C11 JSON Schema validation verdicts are correct - keyword registry, keyword/validator binding, abort propagation."""
 import json, os, re
-from .. import frontend as F, ast as A, cfg as C, util as U, guards as G
+from .. import frontend as F, ast as A, cfg as C, util as U, guards as G, inline as I
 from . import c20, c05
 
 EXPLANATION = ('Structural necessary conditions only: (R11.1) for each of the five dialect factories, the set of keyword literals it '
@@ -380,7 +380,9 @@ def run(chk, tier, only_rule=None):
         chk.require(fns, 'json_schema::%s not found' % name)
         for fn in U.one_per_inst(fns):
             chk.analysed(fn)
-            calls = [c for c in A.calls_in(fn['body']) if A.callee_name(c) == 'validate' and 'root_' in A.text(c.get('obj'))]
+            # by itself, through another overload, or through a private helper of the class that does
+            bodies = I.closure_bodies(facts, fn, depth=2)
+            calls = [c for b in bodies for c in A.calls_in(b) if A.callee_name(c) == 'validate' and 'root_' in A.text(c.get('obj'))]
             dele = [c for c in A.calls_in(fn['body']) if A.callee_name(c) in ('validate', 'is_valid') and K_this(c)]
             site = U.site(fn, 'nparams=%d' % len(fn['params']))
             if calls or dele: chk.ok('R11.3', site, {'function': fn['q'], 'evaluates': 'root_->validate' if calls else 'delegates'})
